@@ -57,12 +57,12 @@ impl Paired { pub closed spec fn inner(self) -> Arithmetic { self.stats } }
 //@|             && final(self).inner().s1() == old(self).inner().s1() + psum_to(data_a@, data_b@, data_a.len() as int)
 //@|             && final(self).inner().s2() == old(self).inner().s2() + psumsq_to(data_a@, data_b@, data_a.len() as int),
 //@|         data_a.len() != data_b.len() ==> r is Err && r->Err_0 == CIError::DifferentSampleSizes(data_a.len(), data_b.len()),
-//@loop 0| invariant tail_of(IteratorSpec::remaining(&$mut0), data_a@, $mut2 as int), tail_of(IteratorSpec::remaining(&$mut1), data_b@, $mut2 as int),
-//@loop 0|     $mut2 <= data_a.len(), $mut2 <= data_b.len(), old(self).inner().n() + data_a.len() < usize::MAX, old(self).inner().n() + data_b.len() < usize::MAX,
-//@loop 0|     self.inner().wf(), self.inner().n() == old(self).inner().n() + $mut2,
-//@loop 0|     self.inner().s1() == old(self).inner().s1() + psum_to(data_a@, data_b@, $mut2 as int),
-//@loop 0|     self.inner().s2() == old(self).inner().s2() + psumsq_to(data_a@, data_b@, $mut2 as int),
-//@loop 0| decreases data_a.len() - $mut2,
+//@loop 0| invariant tail_of(IteratorSpec::remaining(&$mut{data_a.into_iter()}), data_a@, $mut{0} as int), tail_of(IteratorSpec::remaining(&$mut{data_b.into_iter()}), data_b@, $mut{0} as int),
+//@loop 0|     $mut{0} <= data_a.len(), $mut{0} <= data_b.len(), old(self).inner().n() + data_a.len() < usize::MAX, old(self).inner().n() + data_b.len() < usize::MAX,
+//@loop 0|     self.inner().wf(), self.inner().n() == old(self).inner().n() + $mut{0},
+//@loop 0|     self.inner().s1() == old(self).inner().s1() + psum_to(data_a@, data_b@, $mut{0} as int),
+//@loop 0|     self.inner().s2() == old(self).inner().s2() + psumsq_to(data_a@, data_b@, $mut{0} as int),
+//@loop 0| decreases data_a.len() - $mut{0},
 //@fn sample_mean ret r
 //@| requires self.inner().wf(),
 //@| ensures r.v() == mean_of(self.inner().s1(), self.inner().n()),
